@@ -47,7 +47,7 @@ CHECKS = {
    note="placement read through a real parser; behaviour observed at run time only (layout of the body is free)",
    technique=TECH_X + " + structural placement oracle and run-time behaviour oracle"),
  "C09": dict(level="model_checking", design="DESIGN.md §8 C09",
-   text="every enum of 1-3 variants with arms from {literal, range pattern, or-pattern, wildcard, README catch-all, ghost variant} over boundary points, distinct and overlapping, every order, counterparts u8 / i8 / &'static str alias, owned and by-ref kinds, infallible and fallible: compiled through the real derive and executed over the WHOLE primitive domain against a first-match-in-declaration-order model; Into yields the literal; round trip where literals are distinct",
+   text="every enum of 1-3 variants with arms from {literal, range pattern, or-pattern, guarded binding pattern, wildcard, README catch-all, ghost variant} over boundary points, distinct and overlapping, every order, counterparts u8 / i8 / &'static str alias, owned and by-ref kinds, infallible and fallible: compiled through the real derive and executed over the WHOLE primitive domain against a first-match-in-declaration-order model; Into yields the literal; round trip where literals are distinct",
    note="all 256 values of u8/i8 are evaluated for every enum; strings over a closed set plus one outside value",
    technique=TECH_X + " + reference-model conformance over the complete value domain, through rustc and execution"),
  "C10": dict(level="model_checking", design="DESIGN.md §8 C10",
